@@ -216,6 +216,35 @@ impl Check for C17Delivery {
                 line_breaks_seen += 1;
             }
         }
+        // ---------- B2. input-context selectors evaluated late, by stages that buffer rows
+        {
+            let mut base_args = sv(&["--select=.=v", "--select=&index=i", "--select=&started-at-line-number=sl"]);
+            base_args.extend(oo.clone());
+            let plain_rows = run(&base_args, bytes);
+            let lines: Vec<&[u8]> = plain_rows.stdout.split(|c| *c == b'\n').filter(|l| !l.is_empty()).collect();
+            let mut a = base_args.clone();
+            a.extend(sv(&["--sort-by=&index=DESC", "--sort-by=1"]));
+            let rev = run(&a, bytes);
+            let mut exp: Vec<u8> = Vec::new();
+            for l in lines.iter().rev() {
+                exp.extend_from_slice(l);
+                exp.push(b'\n');
+            }
+            if !rev.res.is_ok() || rev.stdout != exp {
+                return fail(format!("--sort-by=&index=DESC --sort-by=1 does not print the rows in reverse input order with their own positions: {} instead of {}", esc_trunc(&rev.stdout, 300), esc_trunc(&exp, 300)));
+            }
+            let mut a = base_args.clone();
+            a.extend(sv(&["--sort-by=1", "--group-by=(stringify &index)"]));
+            let grp = run(&a, bytes);
+            let rows: Result<Vec<RVal>, String> = lines.iter().map(|l| parse_one(l)).collect();
+            if let Ok(rows) = rows {
+                let model = RVal::Obj(rows.iter().enumerate().map(|(k, r)| (k.to_string(), RVal::Arr(vec![r.clone()]))).collect());
+                let got = grp.stdout.strip_suffix(b"\n").map(parse_one);
+                if !grp.res.is_ok() || !matches!(&got, Some(Ok(g)) if same_value(&model, g)) {
+                    return fail(format!("--sort-by=1 --group-by=(stringify &index): every row must sit alone under its own ordinal: {}", esc_trunc(&grp.stdout, 400)));
+                }
+            }
+        }
         // ---------- C. stdin vs one file vs several files
         let dir = tmp_dir().join(format!("c17-{}", SEQ.fetch_add(1, Ordering::Relaxed)));
         let _ = std::fs::create_dir_all(&dir);
